@@ -97,7 +97,9 @@ func buildGroups(r *ev.Run) []*group {
 		}})
 	// 5 MB body limit: needs MaxBatchSize ≥ 5 (a batch of ≤ 3 events of ≤ 1 MB cannot reach it)
 	splitSizes := []int{szMax, szSmall, szOver1}
-	splitScripts := [][]answer{{}, {{Kind: "timeout"}}, {ok, {Kind: "timeout"}}, {{Kind: "429"}}, {{Kind: "500"}}, {ok, {Kind: "short"}}}
+	splitScripts := [][]answer{{}, {{Kind: "timeout"}}, {ok, {Kind: "timeout"}}, {{Kind: "429"}}, {{Kind: "500"}}, {ok, {Kind: "short"}},
+		// the first request's two attempts both fail, the second one with a Retry-After (what happens to the rest of the batch?)
+		{{Kind: "timeout"}, {Kind: "503", RA: "59"}}, {{Kind: "503", RA: "59"}, {Kind: "503", RA: "59"}}, {{Kind: "429", RA: "1"}, {Kind: "429", RA: "1"}}}
 	if th {
 		splitSizes = []int{szMax, szAlmost, szSmall, szOver1}
 		splitScripts = scripts(2, faultKindsReduced(), []answer{{Kind: "timeout"}, {Kind: "429", RA: ""}, {Kind: "503", RA: "59"}, {Kind: "500"}})
